@@ -102,6 +102,25 @@ def check_case(case, ctx):
     if case["paper"]:
         call(W.group, [exp_node], W.p2pkh_address)
     secrets = {rexp.k.to_bytes(32, "big"), rm.k.to_bytes(32, "big")} | {p.k.to_bytes(32, "big") for p in priv_subs}
+    # the export string as the WALLET hands it out (flavour may follow the path's purpose; network and key material may not vary)
+    for how, f in (("node_extended_public_key", lambda: W.node_extended_public_key(exp_node)),
+                   ("node_extended_keys()['pub']", lambda: W.node_extended_keys(exp_node)["pub"])):
+        st_, xs = call(f)
+        if st_ == "exc":
+            raise Violation("C14/export/raised", "%s raised %r" % (how, xs))
+        cx = C.classify(xs)
+        if cx["kind"] != "xpub" or cx["net"] != ("test" if testnet else "main"):
+            raise Violation("C14/export/wallet-level-network", "full %snet wallet, node %s: %s = %s is a %snet %s" % (
+                "test" if testnet else "main", R.fmt_path(case["export"]), how, xs, cx["net"], cx["kind"]))
+        nd = cx["node"]
+        if nd.pt != rexp.pt or nd.c != rexp.c or nd.depth != rexp.depth or nd.index != rexp.index or nd.pfp != rexp.pfp:
+            raise Violation("C14/export/wallet-level-string", "%s of node %s does not carry that node's public data: %s" % (how, R.fmt_path(case["export"]), xs))
+        st_, WO2 = call(cls.from_extended_key, xs)
+        if st_ == "exc" or bool(WO2.testnet) != testnet or WO2.watch_only is not True:
+            raise Violation("C14/flags/network", "watch-only wallet from the wallet-level export %s: %r" % (xs, WO2 if st_ == "exc" else WO2.testnet))
+        if WO2.p2wpkh_address(WO2.master) != W.p2wpkh_address(exp_node):
+            raise Violation("C14/address/differs-from-full-wallet", "watch-only wallet from the wallet-level export %s gives another "
+                            "P2WPKH address for the export node than the full wallet" % xs)
     for purpose in (44, 49, 84):
         v = R.VERSION_OF[("pub", testnet, purpose)]
         s = exp_node.extended_public_key(version=v)
